@@ -148,7 +148,7 @@ func recvTypeName(fn *ssa.Function) string {
 		t = p.Elem()
 	}
 	if n, ok := t.(*types.Named); ok {
-		return n.Obj().Name()
+		return an.TypeNameHook(n.Obj())
 	}
 	return ""
 }
@@ -168,7 +168,7 @@ func derefNamed(t types.Type) *types.Named {
 
 func typeNameOf(t types.Type) string {
 	if n := derefNamed(t); n != nil {
-		return n.Obj().Name()
+		return an.TypeNameHook(n.Obj())
 	}
 	return types.TypeString(t, nil)
 }
